@@ -248,7 +248,9 @@ def answerRun (fs : List String) : String :=
           -- what an injected panic at one invocation does to the call
           let pan := match (field fs "panic").bind decEvent with
             | none => "-"
-            | some pe => match panicPred steps.1.2 Pf t pe with
+            | some pe =>
+              if pe.stage == 101 then "-"   -- the reduce operator: its invocations are not part of the logged model
+              else match panicPred steps.1.2 Pf t pe with
               | .yes => "yes"
               | .maybe => "maybe"
               | .no => "no"
